@@ -1,0 +1,12 @@
+//go:build verif
+
+package onchain
+
+// Verification hooks (build tag verif): read-only exports of unexported
+// constants so that the Coq development can regenerate them from the code.
+
+const (
+	VerifModernFeeFloorMajor = modernFeeFloorMajor
+	VerifModernFeeFloorMinor = modernFeeFloorMinor
+	VerifWitnessScaleFactor  = witnessScaleFactor
+)
